@@ -441,49 +441,65 @@ func cmdCheck(args []string) {
 				}
 			}
 			// counterexamples: replay natively, report only what reproduces
-			perLabel := map[string]int{}
+			// group candidates by signature; a signature is a violation as soon as one of its
+			// candidates reproduces natively, and inconclusive only if none does
+			bySig := map[string][]Violation{}
+			var sigOrder []string
 			for _, v := range res.Violations {
 				sig := hc.Name + "|" + v.Kind + "|" + v.Label
-				if perLabel[sig] >= 2 {
-					continue
+				if _, ok := bySig[sig]; !ok {
+					sigOrder = append(sigOrder, sig)
 				}
-				perLabel[sig]++
-				nRep++
-				tp := filepath.Join(replayDir, fmt.Sprintf("%s-%s-%d.json", *prop, hc.Name, nRep))
-				writeTape(tp, hc.Name, tier, params, v.Tape)
-				out := rp.replay(hc.Name, tp)
-				confirmed := strings.HasPrefix(out, "REPLAY confirmed-")
-				if !confirmed {
-					msg := fmt.Sprintf("%s: UNCONFIRMED counterexample (%s %s): native run says %q", hc.Name, v.Kind, v.Label, out)
-					fmt.Println(msg)
-					inconclusive = append(inconclusive, msg)
-					os.Remove(tp)
-					continue
-				}
-				validated++
-				matched := false
-				for ki, k := range known.Findings {
-					if k.Property != *prop {
+				bySig[sig] = append(bySig[sig], v)
+			}
+			for _, sig := range sigOrder {
+				confirmedOne := false
+				var lastOut string
+				var lastV Violation
+				for _, v := range bySig[sig] {
+					nRep++
+					tp := filepath.Join(replayDir, fmt.Sprintf("%s-%s-%d.json", *prop, hc.Name, nRep))
+					writeTape(tp, hc.Name, tier, params, v.Tape)
+					out := rp.replay(hc.Name, tp)
+					lastOut, lastV = out, v
+					if !strings.HasPrefix(out, "REPLAY confirmed-") {
+						if d := os.Getenv("SYMGO_KEEP_UNCONFIRMED"); d != "" {
+							os.MkdirAll(d, 0o755)
+							os.Rename(tp, filepath.Join(d, filepath.Base(tp)))
+						}
+						os.Remove(tp)
 						continue
 					}
-					if re, err := regexp.Compile(k.Match); err == nil && re.MatchString(sig) {
-						matched = true
-						if !knownHits[ki] {
-							knownHits[ki] = true
-							fmt.Printf("KNOWN-FINDING: property=%s %s\n", *prop, k.What)
+					confirmedOne = true
+					validated++
+					matched := false
+					for ki, k := range known.Findings {
+						if k.Property != *prop {
+							continue
 						}
-						break
+						if re, err := regexp.Compile(k.Match); err == nil && re.MatchString(sig) {
+							matched = true
+							if !knownHits[ki] {
+								knownHits[ki] = true
+								fmt.Printf("KNOWN-FINDING: property=%s %s\n", *prop, k.What)
+							}
+							break
+						}
 					}
+					samples = append(samples, map[string]interface{}{"harness": hc.Name, "kind": "counterexample replayed natively", "signature": sig, "detail": v.Detail, "native": out, "tape": v.Tape, "known_finding": matched})
+					if matched {
+						os.Remove(tp)
+					} else {
+						violations++
+						violLines = append(violLines, fmt.Sprintf("VIOLATION property=%s replay=%s", *prop, tp))
+						fmt.Printf("  counterexample: %s %s %s -> %s\n", v.Kind, v.Label, v.Detail, out)
+					}
+					break
 				}
-				samples = append(samples, map[string]interface{}{"harness": hc.Name, "kind": "counterexample replayed natively", "signature": sig, "detail": v.Detail, "native": out, "tape": v.Tape, "known_finding": matched})
-				if matched {
-					os.Remove(tp)
-					continue
-				}
-				if perLabel[sig] == 1 {
-					violations++
-					violLines = append(violLines, fmt.Sprintf("VIOLATION property=%s replay=%s", *prop, tp))
-					fmt.Printf("  counterexample: %s %s %s -> %s\n", v.Kind, v.Label, v.Detail, out)
+				if !confirmedOne {
+					msg := fmt.Sprintf("%s: UNCONFIRMED counterexample (%s %s; %d candidates): native run says %q", hc.Name, lastV.Kind, lastV.Label, len(bySig[sig]), lastOut)
+					fmt.Println(msg)
+					inconclusive = append(inconclusive, msg)
 				}
 			}
 			hevs = append(hevs, ev)
